@@ -172,8 +172,12 @@ func doGetHead(c *vlib.Ctx, sc scenario, expected peer.ID) callResult {
 	if v != nil && strings.HasPrefix(v.sigTerm, "(WSSig") {
 		c.Nontrivial(fmt.Sprintf("gethead/%s/%s/%s", sc.keyType, sc.name, optPeerTerm(expected)))
 	}
-	if r.kind == "ok" {
-		sampleOnce(c, "gethead-ok-"+sc.name, map[string]interface{}{"level": "GetHead", "scenario": sc.name, "key_type": sc.keyType, "expected": peerStr(expected), "observed": "ok " + r.cid.String()})
+	if sc.name == "Honest" || sc.name == "ResignBy:other-type" {
+		obsS := r.kind + " " + r.err
+		if r.kind == "ok" {
+			obsS = "ok " + r.cid.String()
+		}
+		sampleOnce(c, "gethead-"+r.kind+"-"+sc.name, map[string]interface{}{"level": "GetHead", "scenario": sc.name, "key_type": sc.keyType, "expected": peerStr(expected), "observed": obsS})
 	}
 	who := "expected=" + peerStr(expected)
 	if r.kind == "panic" {
@@ -287,8 +291,10 @@ func doSub(c *vlib.Ctx, sc scenario, id peer.ID, addrIDs []peer.ID, latest0 cid.
 	if v != nil && strings.HasPrefix(v.sigTerm, "(WSSig") {
 		c.Nontrivial(fmt.Sprintf("sub/%s/%s/%s/%v/%s", sc.keyType, sc.name, optPeerTerm(id), ids, cidStr(latest0)))
 	}
-	sampleOnce(c, "sub-"+r.kind+"-"+sc.name, map[string]interface{}{"level": "SyncAdChain", "scenario": sc.name, "key_type": sc.keyType, "observed": r.kind,
-		"head_requests": r.heads, "block_requests_after_head": len(r.blocks), "latest_before": cidStr(latest0), "latest_after": cidStr(r.latest)})
+	if sc.name == "Honest" || sc.name == "ResignBy:same-type" {
+		sampleOnce(c, "sub-"+r.kind+"-"+sc.name, map[string]interface{}{"level": "SyncAdChain", "scenario": sc.name, "key_type": sc.keyType, "observed": r.kind,
+			"head_requests": r.heads, "block_requests_after_head": len(r.blocks), "latest_before": cidStr(latest0), "latest_after": cidStr(r.latest)})
+	}
 	if r.kind == "panic" {
 		c.Fail("sub:panic:"+sc.name, "SyncAdChain panicked: "+r.err, rp)
 		return r
